@@ -43,6 +43,9 @@ def main(spec=None, out=None):
     ckw = {}
     if opts.get("expires") is not None:
         ckw["cache_validation_callback"] = joblib.expires_after(seconds=opts["expires"])
+    if opts.get("callback") == "duration":
+        # a user-written callback in the style of the documentation: it reads a key of the metadata
+        ckw["cache_validation_callback"] = lambda metadata: metadata["duration"] >= 0
     g = mem.cache(cachedmod.f, **ckw)
     if out is None:
         out = sys.stdout
